@@ -41,7 +41,7 @@ SHARDS = ["solve", "solve", "solve", "singular", "ls", "ls", "spd", "spd", "lu",
 
 
 def shards(tier):
-    n = {"solve": 330, "singular": 500, "ls": 330, "spd": 450, "lu": 450, "qr": 330, "arith": 650}
+    n = {"solve": 1800, "singular": 1500, "ls": 1200, "spd": 2000, "lu": 2000, "qr": 1400, "arith": 2400}
     k = 1 if tier == "quick" else 25
     return [(s, n[s] * k) for s in SHARDS]
 
@@ -722,13 +722,23 @@ class Ctx(object):
             if where is None:
                 raise
             v, st = e, "exc"
-            self.res.bad("exception:%s:%s" % (type(e).__name__, name),
+            bucket = "exception:%s:%s" % (type(e).__name__, name)
+            if isinstance(e, TypeError) and "NoneType" in str(e) and where == "matrices.py:__getitem__":
+                # LU_decomp found no pivot candidate (all-zero column): p[j] stays None and swap_row(A, j, None) fails;
+                # one root cause whatever the entry point
+                bucket = "LU_decomp:no_pivot:TypeError"
+            self.res.bad(bucket,
                          "%s raised the undocumented %s(%s) at %s: %s" % (name, type(e).__name__, e, where, self.desc))
         finally:
             if mp.prec != self.p:
                 self.res.bad("prec_leak:" + name, "%s left mp.prec = %d instead of %d" % (name, mp.prec, self.p))
                 mp.prec = self.p
         return st, v
+
+    def unexpected(self, st, bucket, msg):
+        """report an outcome other than "ok" unless call() has reported it already (undocumented exception)"""
+        if st != "exc":
+            self.res.bad(bucket, msg)
 
 
 def colvec(M):
@@ -816,12 +826,12 @@ def _check_solve(mp, c, res, p):
     if Ainv is None:
         res.cls = _label(c, A, ":singular")
         st, v = K.call("inverse", mp.inverse, M)
-        if st != "zde":
-            res.bad("singular:inverse", "inverse of an exactly singular matrix %s: %s" % (
+        if st not in ("zde", "exc"):
+            res.bad("singular:not_detected", "inverse of an exactly singular matrix %s: %s" % (
                 "returned " + show(v, 300) if st == "ok" else "raised ValueError %s" % v, desc))
         st, v = K.call("lu_solve", mp.lu_solve, M, bv)
-        if st != "zde":
-            res.bad("singular:lu_solve", "lu_solve with an exactly singular matrix %s: %s" % (
+        if st not in ("zde", "exc"):
+            res.bad("singular:not_detected", "lu_solve with an exactly singular matrix %s: %s" % (
                 "returned " + show(v, 300) if st == "ok" else "raised ValueError %s" % v, desc))
         return
     cond = norm_inf_up(A) * norm_inf_up(Ainv)
@@ -837,19 +847,14 @@ def _check_solve(mp, c, res, p):
         if st == "zde":
             res.bad("false_singular:lu_solve", "lu_solve raised ZeroDivisionError, cond = %.3g: %s" % (f2(cond), desc))
         elif st == "ve":
-            res.bad("exception:lu_solve", "lu_solve raised ValueError(%s): %s" % (v, desc))
-        else:
+            K.unexpected(st, "exception:lu_solve", "lu_solve raised ValueError(%s): %s" % (v, desc))
+        elif st == "ok":
             vec_err(res, "solve:lu:" + tag, "lu_solve " + desc, colvec(v), x, B, "ratio:lu_solve")
     st, v = K.call("qr_solve", mp.qr_solve, M, bv)
     if indomain:
-        if st == "ve" and "singular" in str(v):
-            # householder() compares the squared column norm with eps (absolute): its own bucket
-            res.bad("false_singular:qr_solve", "qr_solve raised ValueError(%s), cond = %.3g: %s" % (v, f2(cond), desc))
-        elif st == "zde":
-            res.bad("zerodivision:qr_solve", "qr_solve raised ZeroDivisionError(%s), cond = %.3g: %s" % (v, f2(cond), desc))
-        elif st != "ok":
-            res.bad("exception:qr_solve", "qr_solve raised %s(%s): %s" % (type(v).__name__, v, desc))
-        else:
+        if st in ("ve", "zde"):
+            _qr_failure(res, st, v, norm_inf_up(Ainv), n, p, "cond = %.3g: %s" % (f2(cond), desc))
+        elif st == "ok":
             xs, rn = v
             vec_err(res, "solve:qr:" + tag, "qr_solve " + desc, colvec(xs), x, B, "ratio:qr_solve")
             bn = sqrt_bounds(sum((abs2(t) for t in b), Fr(0)), 30)[1]
@@ -862,7 +867,9 @@ def _check_solve(mp, c, res, p):
         if st == "zde":
             res.bad("false_singular:inverse", "inverse raised ZeroDivisionError, cond = %.3g: %s" % (f2(cond), desc))
         elif st == "ve":
-            res.bad("exception:inverse", "inverse raised ValueError(%s): %s" % (v, desc))
+            K.unexpected(st, "exception:inverse", "inverse raised ValueError(%s): %s" % (v, desc))
+        elif st != "ok":
+            pass
         elif (v.rows, v.cols) != (n, n):
             res.bad("inverse:shape", "inverse has shape %dx%d: %s" % (v.rows, v.cols, desc))
         else:
@@ -870,12 +877,22 @@ def _check_solve(mp, c, res, p):
     st, v = K.call("det", mp.det, M)
     if indomain:
         if st != "ok":
-            res.bad("exception:det", "det raised %s(%s): %s" % (type(v).__name__, v, desc))
+            K.unexpected(st, "exception:det", "det raised %s(%s): %s" % (type(v).__name__, v, desc))
         else:
-            vec_err(res, "det:" + tag, "det (exact %.6g) %s" % (f2(det.re if type(det) is CQ else det), desc), [tofr(v)], [det], B, "ratio:det")
+            vec_err(res, "det:" + ("complex" if is_cq(A) else "real"), "det (exact %.6g) %s" % (f2(det.re if type(det) is CQ else det), desc), [tofr(v)], [det], B, "ratio:det")
     # the inputs must be untouched
     if exmat(M) != A or colvec(bv) != b:
         res.bad("input_modified:solve", "a solver modified its arguments: " + desc)
+
+
+def _qr_failure(res, st, v, ainv_norm, n, p, desc):
+    """qr_solve raised for a system inside the accuracy domain.  householder() rejects a column whose SQUARED norm is
+    <= eps (an absolute test): that can only happen when 1/(n |A^-1|^2) <= 2^-(p+9).  Every other failure is the
+    Householder step itself (it takes sign(re(pivot)), which is 0 for a pivot with zero real part)."""
+    if st == "ve" and ainv_norm * ainv_norm * n >= Fr(1 << (p + 9)):
+        res.bad("qr_solve:abs_threshold", "qr_solve raised ValueError(%s) although %s" % (v, desc))
+    else:
+        res.bad("qr_solve:zero_real_pivot", "qr_solve raised %s(%s) although %s" % (type(v).__name__, v, desc))
 
 
 def _check_ls(mp, c, res, p):
@@ -915,18 +932,19 @@ def _check_ls(mp, c, res, p):
     st, v = K.call("lu_solve", mp.lu_solve, M, bv)
     if indomain:
         if st == "ve" and "positive-definite" in str(v):
-            res.bad("false_not_pd:lu_solve", "lu_solve (normal equations) raised ValueError(%s), cond(A^H A) = %.3g: %s" % (v, f2(cond), desc))
+            res.bad("cholesky:abs_tol", "lu_solve (normal equations) raised ValueError(%s), cond(A^H A) = %.3g: %s" % (v, f2(cond), desc))
+        elif st == "exc":
+            pass
         elif st != "ok":
             res.bad("false_singular:lu_solve:ls", "lu_solve raised %s(%s), cond(A^H A) = %.3g: %s" % (type(v).__name__, v, f2(cond), desc))
         else:
             vec_err(res, "ls:lu:" + tag, "lu_solve (overdetermined) " + desc, colvec(v), x, B, "ratio:lu_solve_ls")
     st, v = K.call("qr_solve", mp.qr_solve, M, bv)
     if indomain:
-        if st == "ve" and "singular" in str(v):
-            res.bad("false_singular:qr_solve", "qr_solve raised ValueError(%s), cond(A^H A) = %.3g: %s" % (v, f2(cond), desc))
-        elif st != "ok":
-            res.bad("exception:qr_solve", "qr_solve raised %s(%s): %s" % (type(v).__name__, v, desc))
-        else:
+        if st in ("ve", "zde"):
+            li, hi_ = sqrt_bounds(norm_inf_up(Ninv), 20)
+            _qr_failure(res, st, v, hi_, n, p, "cond(A^H A) = %.3g: %s" % (f2(cond), desc))
+        elif st == "ok":
             xs, rn = v
             vec_err(res, "ls:qr:" + tag, "qr_solve (overdetermined) " + desc, colvec(xs), x, B, "ratio:qr_solve_ls")
             r = [s - t for s, t in zip(mat_vec(A, x), b)]
@@ -980,7 +998,7 @@ def _check_spd(mp, c, res, p):
         j = len(piv) - 1
         clear = piv[j] < 0 and all(piv[i] * (1 << 20) > diag[i] for i in range(j)) and -piv[j] * (1 << 20) > abs(diag[j])
         st, v = K.call("cholesky", mp.cholesky, M)
-        if clear and st != "ve":
+        if clear and st not in ("ve", "exc"):
             res.bad("cholesky:indefinite", "cholesky of a matrix whose exact pivot %d is %.3g %s: %s" % (
                 j, f2(piv[j]), "returned " + show(v, 300) if st == "ok" else "raised %r" % v, desc))
         elif not clear:
@@ -997,10 +1015,10 @@ def _check_spd(mp, c, res, p):
     st, L = K.call("cholesky", mp.cholesky, M)
     if st == "ve":
         if indomain:
-            res.bad("false_not_pd:cholesky", "cholesky raised ValueError(%s) for a positive definite matrix, cond = %.3g: %s" % (L, f2(cond), desc))
+            res.bad("cholesky:abs_tol", "cholesky raised ValueError(%s) for a positive definite matrix, cond = %.3g: %s" % (L, f2(cond), desc))
     elif st == "zde":
-        res.bad("exception:cholesky", "cholesky raised ZeroDivisionError: " + desc)
-    else:
+        K.unexpected(st, "exception:cholesky", "cholesky raised ZeroDivisionError: " + desc)
+    elif st == "ok":
         ok = True
         if (L.rows, L.cols) != (n, n):
             res.bad("cholesky:shape", "L is %dx%d: %s" % (L.rows, L.cols, desc))
@@ -1036,10 +1054,10 @@ def _check_spd(mp, c, res, p):
     if indomain:
         x = mat_vec(Ainv, b)
         if st == "ve":
-            res.bad("false_not_pd:cholesky_solve", "cholesky_solve raised ValueError(%s), cond = %.3g: %s b=%s" % (v, f2(cond), desc, show(bv, 200)))
+            res.bad("cholesky:abs_tol", "cholesky_solve raised ValueError(%s), cond = %.3g: %s b=%s" % (v, f2(cond), desc, show(bv, 200)))
         elif st == "zde":
-            res.bad("exception:cholesky_solve", "cholesky_solve raised ZeroDivisionError: " + desc)
-        else:
+            K.unexpected(st, "exception:cholesky_solve", "cholesky_solve raised ZeroDivisionError: " + desc)
+        elif st == "ok":
             offdiag_cplx = any(type(A[i][j]) is CQ and A[i][j].im != 0 for i in range(n) for j in range(n) if i != j)
             # cholesky_solve back-substitutes with L.T: right for symmetric matrices; for Hermitian matrices with
             # non-real off-diagonal entries it would have to be L.H -- its own bucket
@@ -1069,14 +1087,14 @@ def _check_lu(mp, c, res, p):
         res.cls = _label(c, A, "" if indomain else ":illcond")
     M1 = build(mp, c["A"])
     st, v = K.call("LU_decomp", mp.LU_decomp, M1)
-    if st == "ve":
-        res.bad("exception:LU_decomp", "LU_decomp raised ValueError(%s): %s" % (v, desc))
+    if st in ("ve", "exc"):
+        K.unexpected(st, "exception:LU_decomp", "LU_decomp raised ValueError(%s): %s" % (v, desc))
         return
     if st == "zde":
         if indomain:
             res.bad("false_singular:LU_decomp", "LU_decomp raised ZeroDivisionError, cond = %.3g: %s" % (f2(cond), desc))
         st2, v2 = K.call("lu", mp.lu, M)
-        if st2 != "zde":
+        if st2 not in ("zde", "exc"):
             res.bad("lu:inconsistent", "LU_decomp raised ZeroDivisionError but lu did not: " + desc)
         return
     LUm, piv = v
@@ -1088,7 +1106,7 @@ def _check_lu(mp, c, res, p):
         return
     st, v = K.call("lu", mp.lu, M)
     if st != "ok":
-        res.bad("lu:inconsistent", "LU_decomp succeeded but lu raised %r: %s" % (v, desc))
+        K.unexpected(st, "lu:inconsistent", "LU_decomp succeeded but lu raised %r: %s" % (v, desc))
         return
     P, L, U = v
     for nm, X in (("P", P), ("L", L), ("U", U)):
@@ -1169,7 +1187,9 @@ def _check_lu(mp, c, res, p):
     # overwrite=True gives the same factorization in place
     M3 = build(mp, c["A"])
     st, v = K.call("LU_decomp(overwrite)", mp.LU_decomp, M3, overwrite=True)
-    if st != "ok" or exmat(v[0]) != LUx or list(v[1]) != list(piv) or exmat(M3) != LUx:
+    if st == "exc":
+        pass
+    elif st != "ok" or exmat(v[0]) != LUx or list(v[1]) != list(piv) or exmat(M3) != LUx:
         res.bad("LU_decomp:overwrite", "LU_decomp(A, overwrite=True) differs from LU_decomp(A) or did not work in place: " + desc)
 
 
@@ -1185,7 +1205,7 @@ def _check_qr(mp, c, res, p):
     K.desc = desc
     st, v = K.call("qr", mp.qr, M, mode=c["mode"])
     if st != "ok":
-        res.bad("exception:qr", "qr raised %s(%s): %s" % (type(v).__name__, v, desc))
+        K.unexpected(st, "exception:qr", "qr raised %s(%s): %s" % (type(v).__name__, v, desc))
         return
     Q, Rm = v
     skinny = c["mode"].lower() == "skinny"
@@ -1281,7 +1301,7 @@ def _check_arith(mp, c, res, p):
         else:
             st, G = K.call("mul", lambda: M * N)
         if st != "ok":
-            res.bad("exception:" + op, "%s raised %r: %s" % (op, G, desc))
+            K.unexpected(st, "exception:" + op, "%s raised %r: %s" % (op, G, desc))
             return
         rows, cols = (m, n) if op != "mul" else (m, len(Bx[0]))
         if (G.rows, G.cols) != (rows, cols):
@@ -1320,7 +1340,7 @@ def _check_arith(mp, c, res, p):
         else:
             st, G = K.call("sadd", (lambda: s + M) if c["side"] == "l" else (lambda: M + s))
         if st != "ok":
-            res.bad("exception:" + op, "%s raised %r: %s" % (op, G, desc))
+            K.unexpected(st, "exception:" + op, "%s raised %r: %s" % (op, G, desc))
             return
         if (G.rows, G.cols) != (m, n):
             res.bad("arith:%s:shape" % op, "result is %dx%d: %s" % (G.rows, G.cols, desc))
@@ -1348,7 +1368,7 @@ def _check_arith(mp, c, res, p):
              "transpose_conj": lambda: M.transpose_conj(), "conjugate": lambda: M.conjugate()}[how]
         st, G = K.call(how, f)
         if st != "ok":
-            res.bad("exception:transpose", "%s raised %r: %s" % (how, G, desc))
+            K.unexpected(st, "exception:transpose", "%s raised %r: %s" % (how, G, desc))
             return
         tr = how != "conjugate"
         cj = how in ("H", "transpose_conj", "conjugate")
@@ -1400,8 +1420,8 @@ def _check_pow(mp, c, res, p, M, A, K, desc):
     st, G = K.call("pow", lambda: M ** e)
     if e < 0 and Ainv is None:
         res.cls += ":singular"
-        if st != "zde":
-            res.bad("singular:pow", "A**%d of an exactly singular matrix %s: %s" % (
+        if st not in ("zde", "exc"):
+            res.bad("singular:not_detected", "A**%d of an exactly singular matrix %s: %s" % (
                 e, "returned " + show(G, 300) if st == "ok" else "raised %r" % G, desc))
         return
     if e < 0:
@@ -1415,7 +1435,7 @@ def _check_pow(mp, c, res, p, M, A, K, desc):
             res.bad("false_singular:pow", "A**%d raised ZeroDivisionError, cond(A^%d) = %.3g: %s" % (e, k, f2(cond), desc))
             return
     if st != "ok":
-        res.bad("exception:pow", "A**%d raised %r: %s" % (e, G, desc))
+        K.unexpected(st, "exception:pow", "A**%d raised %r: %s" % (e, G, desc))
         return
     if (G.rows, G.cols) != (n, n):
         res.bad("arith:pow:shape", "result is %dx%d: %s" % (G.rows, G.cols, desc))
@@ -1508,7 +1528,7 @@ def _check_mnorm(mp, c, res, p, M, A, K, desc):
     arg = {"1": 1, "inf": mp.inf, "infstr": "inf"}.get(which, which)
     st, g = K.call("mnorm", mp.mnorm, M, arg)
     if st != "ok":
-        res.bad("exception:mnorm", "mnorm raised %r: %s" % (g, desc))
+        K.unexpected(st, "exception:mnorm", "mnorm raised %r: %s" % (g, desc))
         return
     if which in ("1", "inf", "infstr"):
         lines = list(zip(*A)) if which == "1" else A
@@ -1552,7 +1572,7 @@ def _check_norm(mp, c, res, p, M, A, K, desc):
     X = [M[i, 0] for i in range(M.rows)] if c.get("aslist") else M
     st, g = K.call("norm", mp.norm, X, arg)
     if st != "ok":
-        res.bad("exception:norm", "norm raised %r: %s" % (g, desc))
+        K.unexpected(st, "exception:norm", "norm raised %r: %s" % (g, desc))
         return
     if which == "1":
         lo, hi, ex = _interval_sum(items, bits)
